@@ -108,3 +108,26 @@ def visited_guard(F, f, call):
                 if any(y is t for y in walk(c)):
                     return 'dominated by %s' % (t.get('fn') or t.get('callee'))
     return None
+
+
+def path_guard_balance(F, f):
+    """For a container parameter used as the current recursion path (push_back and pop_back both occur on it in f): every CFG path from
+    a push_back to the exit passes a pop_back, except paths that leave through a `return false` / `return nullptr` (failure unwinds the
+    whole recursion).  Yields (push node, parameter name, ok, detail)."""
+    from issues import must_pass
+    conts = [p for p in f.params if 'std::vector<' in p['t'] and p['t'].rstrip().endswith('&') and 'const' not in p['t'].split('std::vector')[0]]
+    for p in conts:
+        pushes = [c for c in f.walk() if c.get('k') == 'Call' and c.get('mc') and c.get('fn') in ('push_back', 'emplace_back') and c['c'][0].get('k') == 'Ref' and c['c'][0].get('d') == p['d']]
+        pops = [c for c in f.walk() if c.get('k') == 'Call' and c.get('mc') and c.get('fn') == 'pop_back' and c['c'][0].get('k') == 'Ref' and c['c'][0].get('d') == p['d']]
+        if not pushes or not pops:
+            continue
+        # only containers that serve as a cycle guard: some membership test (std::find / count) ranges over them
+        tested = any(c.get('k') == 'Call' and c.get('callee') in ('std::find', 'std::find_if', 'std::count') and any(x.get('k') == 'Ref' and x.get('d') == p['d'] for x in walk(c)) for c in f.walk())
+        if not tested:
+            continue
+        cfg = f.cfg()
+        fails = [r for r in f.walk() if r.get('k') == 'Return' and r.get('c') and render(r['c'][0]) in ('false', 'nullptr')]
+        through = [x['i'] for x in pops] + [x['i'] for x in fails]
+        for c in pushes:
+            ok = must_pass(cfg, c, through)
+            yield c, p['n'], ok, '%d pop_back, %d failure returns' % (len(pops), len(fails))
